@@ -10,8 +10,8 @@ import (
 	_ "time/tzdata"
 )
 
-// base of the modelled three days: Oct 30, Oct 31, Nov 1 2023 (UTC); tick = 30 minutes
-var baseNs = time.Date(2023, 10, 30, 0, 0, 0, 0, time.UTC).UnixNano()
+// base of the modelled three days: Nov 29, Nov 30, Dec 1 2023 (UTC; New York is at -5 h, Moscow at +3 h); tick = 30 minutes
+var baseNs = time.Date(2023, 11, 29, 0, 0, 0, 0, time.UTC).UnixNano()
 
 const tickNs = int64(1800e9)
 
@@ -31,9 +31,6 @@ func writeJSON(path string, v any) {
 }
 
 func main() {
-	if len(os.Args) > 1 && os.Args[1] == "explore" {
-		explore()
-	}
 	mode := flag.String("mode", "", "dump | extract | probe")
 	out := flag.String("out", "", "result file")
 	in := flag.String("in", "", "input file (probe jobs)")
